@@ -270,9 +270,49 @@ func c15Aliases(ctx *core.Ctx, idx int, res *core.Result) {
 		{"link", []string{".", filepath.Join(root, "real")}, []string{"real/sub/x.go", "real/sub/y.go", "real/top.go"}},
 		{"", []string{"real", "link"}, []string{"real/sub/x.go", "real/sub/y.go", "real/top.go"}}, // 'link' itself is a symbolic link: not followed
 		{"", []string{"abslink"}, nil},
+		{"", []string{"real/sub/x.go", "real/sub/y.go", "link/sub/y.go"}, []string{"real/sub/x.go", "real/sub/y.go"}},
+		// the working directory itself was entered through a link (the shell's $PWD keeps that name): it is a
+		// directory, '.' and what lies beneath it are processed
+		{"link", []string{"."}, []string{"real/sub/x.go", "real/sub/y.go", "real/top.go"}},
+		{"link", []string{"./..."}, []string{"real/sub/x.go", "real/sub/y.go", "real/top.go"}},
+		{"link", []string{"sub"}, []string{"real/sub/x.go", "real/sub/y.go"}},
+		{"link", []string{"top.go", "sub/..."}, []string{"real/sub/x.go", "real/sub/y.go", "real/top.go"}},
+		{"abslink", []string{"."}, []string{"real/sub/x.go", "real/sub/y.go"}},
 	}
 	v := vs[r.Intn(len(vs))]
-	cr := ctx.RunCLI(core.CLIOpts{Dir: filepath.Join(root, v.cwd), Args: append([]string{"-p", filepath.Join(base, "p.patch")}, v.args...)})
+	var env []string
+	if v.cwd != "" {
+		env = []string{"PWD=" + filepath.Join(root, v.cwd)} // as a shell sets it after 'cd link'
+	}
+	// the order in which the files are processed (read from the -v log of two dry runs) does not depend on the order
+	// of the arguments or on which of a file's names was given last
+	var orders []string
+	for pass := 0; pass < 2; pass++ {
+		args := append([]string{}, v.args...)
+		if pass == 1 {
+			for i, j := 0, len(args)-1; i < j; i, j = i+1, j-1 {
+				args[i], args[j] = args[j], args[i]
+			}
+		}
+		dr := ctx.RunCLI(core.CLIOpts{Dir: filepath.Join(root, v.cwd), Args: append([]string{"-p", filepath.Join(base, "p.patch"), "-v", "--diff"}, args...), Env: env})
+		var seq []string
+		for _, l := range strings.Split(string(dr.Stdout), "\n") {
+			if strings.HasSuffix(l, ": patched") || strings.HasSuffix(l, ": skipped") {
+				name := strings.TrimSuffix(strings.TrimSuffix(l, ": patched"), ": skipped")
+				if rp, err := filepath.EvalSymlinks(name); err == nil {
+					name = rp
+				}
+				seq = append(seq, name)
+			}
+		}
+		orders = append(orders, strings.Join(seq, "\n"))
+	}
+	if orders[0] != orders[1] {
+		res.Violate("C15/order-depends-on-argument-order", fmt.Sprintf("arguments %v and the same reversed process the files in different orders:\n%s\n--\n%s", v.args, orders[0], orders[1]),
+			map[string]string{"args.txt": "cwd work/" + v.cwd + "\n" + strings.Join(v.args, " ")})
+		return
+	}
+	cr := ctx.RunCLI(core.CLIOpts{Dir: filepath.Join(root, v.cwd), Args: append([]string{"-p", filepath.Join(base, "p.patch")}, v.args...), Env: env})
 	res.Evals++
 	rep := map[string]string{"args.txt": "cwd work/" + v.cwd + "\n" + strings.Join(v.args, " "), "stderr.txt": string(cr.Stderr)}
 	if cc := cr.CrashClass(); cc != "" || cr.Exit != 0 {
